@@ -18,6 +18,7 @@ func (x *Engine) newFrame(fn *ssa.Function, parent *Frame) *Frame {
 	if parent != nil {
 		fr.depth = parent.depth + 1
 		fr.track = parent.track
+		fr.hooksOnly = parent.hooksOnly
 	}
 	fr.computeLoops()
 	return fr
@@ -361,7 +362,20 @@ func (x *Engine) loopHeader(fr *Frame, li *loopInfo, st *State) {
 	// 2. havoc what the loop may write
 	keys, freshKeys, all := x.writeSet(fr, li)
 	if all {
+		// under the external-call policy "preserve-ghosts" unknown calls keep ghost state: only ghosts written by
+		// contracts called in the loop are forgotten
+		ghosts := map[string]string{}
+		if x.extPolicy == "preserve-ghosts" && !x.loopGhostWriter {
+			for k := range x.compSort {
+				if strings.HasPrefix(k, "ghost:") && !keys[k] && !freshKeys[k] {
+					ghosts[k] = x.get(st, k)
+				}
+			}
+		}
 		x.havocAll(st)
+		for k, v := range ghosts {
+			st.h[k] = v
+		}
 		x.bumpEpoch(st)
 	} else {
 		a0 := x.get(st, "$alloc")
@@ -515,8 +529,35 @@ func (x *Engine) writeSet(fr *Frame, li *loopInfo) (map[string]bool, map[string]
 	freshOnly := map[string]bool{}
 	all := false
 	var ins ssa.Instruction
+	x.loopGhostWriter = false
+	ghostWriter := func(fs *FuncSpec) {
+		if fs == nil {
+			return
+		}
+		for _, m := range fs.Modifies {
+			if m.Expr.Op == "ident" {
+				if _, ok := x.db.Ghosts[m.Expr.Name]; ok {
+					x.loopGhostWriter = true
+				}
+			}
+		}
+		if !fs.HasMod {
+			x.loopGhostWriter = true
+		}
+	}
+	_ = ghostWriter
 	setAll := func(i ssa.Instruction, n int) {
 		all = true
+		if ci, ok := i.(ssa.CallInstruction); ok {
+			cc := ci.Common()
+			if cc.IsInvoke() {
+				ghostWriter(x.db.Funcs[x.ifaceKey(cc.Value.Type(), cc.Method)])
+			} else if c := cc.StaticCallee(); c != nil {
+				ghostWriter(x.db.Funcs[specKeyOf(c)])
+			} else {
+				ghostWriter(x.callbackSpec(fr, cc))
+			}
+		}
 		if i != nil {
 			x.notes = append(x.notes, fmt.Sprintf("loop frame unknown (#%d): %s in %s", n, i.String(), i.Parent()))
 		}
